@@ -7,6 +7,7 @@ import Lean.Data.Json
 import Genql.Inst.FloatNum
 import Genql.Model.Eval
 import Genql.Model.Scan
+import Genql.Model.Sanitize
 open Lean Genql
 
 abbrev V := Val Float
@@ -225,6 +226,24 @@ def handle (j : Json) : Json :=
     | "fixarr" => do
       let t ← (← j.getObjVal? "text").getStr?
       match Scan.fixArrStr t with
+      | some r => pure (Json.mkObj [("id", id), ("r", "ok"), ("v", Json.str r)])
+      | none => pure (Json.mkObj [("id", id), ("r", "error")])
+    | "sanitize" => do
+      let t ← (← j.getObjVal? "text").getStr?
+      let raw ← (← j.getObjVal? "args").getArr?
+      let args ← raw.toList.mapM fun (a : Json) => do
+        let ty ← (← a.getObjVal? "t").getStr?
+        let v ← (← a.getObjVal? "v").getStr?
+        match ty with
+        | "nil" => pure San.Arg.null
+        | "int64" => match v.toInt? with
+          | some i => pure (San.Arg.int i)
+          | none => throw "bad int"
+        | "floattext" => pure (San.Arg.float v)
+        | "bool" => pure (San.Arg.bool (v == "true"))
+        | "string" => pure (San.Arg.str v)
+        | o => throw s!"bad arg type {o}"
+      match San.sanitizeStr t args with
       | some r => pure (Json.mkObj [("id", id), ("r", "ok"), ("v", Json.str r)])
       | none => pure (Json.mkObj [("id", id), ("r", "error")])
     | "compare" => do
